@@ -45,6 +45,10 @@ func (r *Rec) Encode(v any) error {
 	if !ok {
 		return fmt.Errorf("verif: Encode called with %T", v)
 	}
+	// the production encoder is encoding/json: an event it cannot marshal is a write error
+	if _, err := json.Marshal(e); err != nil {
+		return fmt.Errorf("verif: event cannot be encoded as JSON: %w", err)
+	}
 	r.evs = append(r.evs, RecEv{Tick: nextTick(), Ev: deepCopyEvent(e), Ptr: e})
 	return nil
 }
